@@ -9,6 +9,7 @@ import (
 	"math"
 	"math/rand"
 	"strings"
+	"time"
 
 	"github.com/EliCDavis/polyform/modeling"
 	"github.com/EliCDavis/polyform/modeling/primitives"
@@ -31,6 +32,8 @@ func Spec() *run.Spec {
 		Assumptions: []string{
 			"fingerprint = topology, index list, PrimitiveCount, AttributeLength (when unambiguous), material list (count, pointer, field values), attribute names per arity and every attribute value by raw IEEE bits, read only through the accessors named in the property",
 			"slices handed to polyform (attribute data, index lists, material lists) are allocated per call and never touched again by the harness; mutation through caller-kept slices is documented sharing and out of reach",
+			"some live meshes carry NaN (several payloads), ±Inf and -0 components; pure queries (BoundingBox per attribute, OctTree*, VertexNeighborTable, Tri accessors, iterators, scans, writers) are history steps like any other",
+			"Modify*Parallel* are driven with pool sizes 8/16/NumCPU on receivers of 0–16 elements and a callback that takes a seeded 100–500 µs; their results are fingerprinted on return and re-read 2 ms later and at every later step",
 			"operations are only generated with their precondition met; a panic or error is not a C01 verdict (the sweep still runs after it)",
 			"results with more than 400 vertices or 3000 indices are swept once but not kept in the pool (bounds of the exploration); phase large-bases: pool ≤ 5, one base of 32769 … 131073 vertices, 8–16 steps, bounds 420000 vertices / 1300000 indices",
 		},
@@ -64,6 +67,8 @@ var table = ops.All()
 // indices into table by role
 var (
 	appendOps, deriveOps, observeOps, sourceOps []int
+	queriesOp, poisonOp                         int
+	modifyOps                                   []int
 )
 
 func init() {
@@ -71,11 +76,20 @@ func init() {
 		switch o.Kind {
 		case ops.Derive:
 			deriveOps = append(deriveOps, i)
+			if o.Group == "special" {
+				poisonOp = i
+			}
+			if strings.HasPrefix(o.Name, "Mesh.ModifyFloat") {
+				modifyOps = append(modifyOps, i)
+			}
 			if strings.HasPrefix(o.Name, "Mesh.Append") {
 				appendOps = append(appendOps, i)
 			}
 		case ops.Observe:
 			observeOps = append(observeOps, i)
+			if o.Name == "Mesh.queries" {
+				queriesOp = i
+			}
 		case ops.Source:
 			sourceOps = append(sourceOps, i)
 		}
@@ -143,6 +157,7 @@ type hist struct {
 	spareSiblingPairs int
 	// bounds of the exploration
 	large   bool
+	fanOut  bool // next apply draws the fan-out shape
 	poolCap int
 	maxV    int
 	maxI    int
@@ -299,7 +314,7 @@ func (h *hist) sweep(opName, desc string, base *live, extra []*live) {
 func (h *hist) apply(opIdx int, base *live, seed int64, protect map[int]bool) (made bool, results []*live) {
 	op := table[opIdx]
 	var operands []*live
-	env := &ops.Env{Valid: true, Large: h.large, Other: func(r *rand.Rand, like modeling.Mesh) modeling.Mesh {
+	env := &ops.Env{Valid: true, Large: h.large, FanOut: h.fanOut, Other: func(r *rand.Rand, like modeling.Mesh) modeling.Mesh {
 		// half of the time a live mesh of the same topology, else a fresh small one (it joins the sweep as operand)
 		if r.Intn(2) == 0 {
 			var same []*live
@@ -326,6 +341,9 @@ func (h *hist) apply(opIdx int, base *live, seed int64, protect map[int]bool) (m
 		return false, nil
 	}
 	sp, _ := spare(base.m)
+	if op.Kind == ops.Observe && hasNonFinite(base.snap) {
+		h.res.Count("query_steps_on_meshes_with_non_finite_values", 1)
+	}
 	h.c.Note(op.Name + " " + call.Desc)
 	entry := fmt.Sprintf("#%d.%s %s", base.id, op.Name, call.Desc)
 	var outs []modeling.Mesh
@@ -343,6 +361,9 @@ func (h *hist) apply(opIdx int, base *live, seed int64, protect map[int]bool) (m
 		h.res.Count("ops_returned_error", 1)
 	}
 	h.names = append(h.names, op.Name)
+	if call.Evidence != "" {
+		h.res.Count(call.Evidence, 1)
+	}
 	h.res.SetAdd("ops_exercised", op.Name)
 	h.res.Count("operations", 1)
 	switch op.Kind {
@@ -378,6 +399,14 @@ func (h *hist) apply(opIdx int, base *live, seed int64, protect map[int]bool) (m
 	h.log = append(h.log, entry)
 	// invariant at every step: all live meshes (operands, earlier results, siblings, the new results themselves)
 	h.sweep(op.Name, call.Desc, base, append(operands, fresh...))
+	if call.Async {
+		// the result was fingerprinted the moment the call returned; a fan-out that returned
+		// early is still writing - read everything again a little later (not a clock-based verdict:
+		// the comparison is between two reads of a value that must never change)
+		time.Sleep(2 * time.Millisecond)
+		h.res.Count("async_results_reread_after_wait", 1)
+		h.sweep(op.Name, call.Desc+" (re-read 2 ms after return)", base, append(operands, fresh...))
+	}
 	// operands that were freshly generated become live meshes too
 	for _, o := range operands {
 		in := false
@@ -458,6 +487,10 @@ func history(c *run.Ctx) run.Result {
 		Materials: true, MaxVerts: 30, AllowEmpty: true})
 	h.add(m1, "gen.Mesh "+d1.Sig(), -1, false, none)
 	h.add(primitives.Cube{Width: 1, Height: 1, Depth: 1}.Welded(), "Cube.Welded", -1, false, none)
+	// non-finite values (NaN payloads, ±Inf, -0) in some attribute of some initial mesh
+	if r.Intn(2) == 0 {
+		h.apply(poisonOp, h.pool[r.Intn(2)], r.Int63(), none)
+	}
 	// a base that certainly came from Append
 	h.apply(appendOps[0], h.pool[0], r.Int63(), none)
 
@@ -526,6 +559,14 @@ func history(c *run.Ctx) run.Result {
 					res.Count("sibling_pairs_from_base_with_spare_capacity", int64(n*(n-1)/2))
 				}
 			}
+		case x < 0.46 && !h.large: // fan-out step: a tiny mesh through the Parallel modifiers with more workers than elements
+			tm, td := gen.Mesh(r, gen.MeshOpts{MaxVerts: 7, MinVerts: 1, V1Names: []string{"userV1"}, V2Names: []string{modeling.TexCoordAttribute}})
+			tiny := h.add(tm, "gen.Mesh(tiny) "+td.Sig(), -1, false, none)
+			h.fanOut = true
+			for _, oi := range modifyOps {
+				h.apply(oi, tiny, r.Int63(), map[int]bool{tiny.id: true})
+			}
+			h.fanOut = false
 		case x < 0.75: // plain derivation
 			for try, ok := 0, false; try < 8 && !ok; try++ {
 				op := h.drawDerive(false)
@@ -535,6 +576,9 @@ func history(c *run.Ctx) run.Result {
 		case x < 0.90: // observer: export, scan, spatial structures
 			for try, ok := 0, false; try < 8 && !ok; try++ {
 				op := observeOps[r.Intn(len(observeOps))]
+				if r.Intn(5) < 2 {
+					op = queriesOp
+				}
 				base := h.pickBase(table[op].Topo)
 				ok, _ = h.apply(op, base, r.Int63(), map[int]bool{base.id: true})
 			}
@@ -595,4 +639,15 @@ func largeBase(r *rand.Rand, n int) (modeling.Mesh, string) {
 		m = m.SetMaterials([]modeling.MeshMaterial{{PrimitiveCount: np / 3, Material: mats[0]}, {PrimitiveCount: np - np/3, Material: mats[1]}})
 	}
 	return m, fmt.Sprintf("%s %d vertices %d indices", topo, n, len(idx))
+}
+
+func hasNonFinite(s *ref.Snapshot) bool {
+	for _, d := range s.Data {
+		for _, f := range d {
+			if math.IsNaN(f) || math.IsInf(f, 0) {
+				return true
+			}
+		}
+	}
+	return false
 }
